@@ -12,6 +12,8 @@ import (
 
 	yae "github.com/goghcrow/yae"
 	"github.com/goghcrow/yae/closure"
+	"github.com/goghcrow/yae/conv"
+	"github.com/goghcrow/yae/debug"
 	"github.com/goghcrow/yae/interp"
 	"github.com/goghcrow/yae/parser/oper"
 	"github.com/goghcrow/yae/simrt"
@@ -203,6 +205,35 @@ type EngineSpec struct {
 
 var backends = []string{"vm", "vmcall", "closure", "interp"}
 
+// pickBackend: the four back ends plus "dbg", the closure compiler in debug
+// (power-assert) mode, whose Callables record intermediate values into the
+// *debug.Record carried by the run-time environment.
+func pickBackend(r *rng) string {
+	if r.chance(0.15) {
+		return "dbg"
+	}
+	return backends[r.intn(4)]
+}
+
+// callWith invokes c the way its back end requires and returns the debug record text ("" unless dbg).
+func callWith(spec EngineSpec, c yae.Callable, env interface{}) (v *val.Val, dbg string, err error) {
+	if spec.Backend != "dbg" {
+		v, err = c(env)
+		return
+	}
+	ve, ok := env.(*val.Env)
+	if !ok {
+		ve, err = conv.ValEnvOf(env)
+		if err != nil {
+			return nil, "", err
+		}
+	}
+	rcd := debug.NewRecord()
+	ve.Dgb = rcd
+	v, err = c(ve)
+	return v, rcd.String(), err
+}
+
 // recFn yields the recorder the currently executing code must write to.
 type recFn func() *recorder
 
@@ -217,6 +248,8 @@ func buildEngine(spec EngineSpec, rec recFn) *yae.Expr {
 		e.UseClosureCompiler()
 	case "interp":
 		e.UseCompiler(interp.Interp)
+	case "dbg":
+		e.UseCompiler(closure.DebugCompile)
 	default:
 		panic("unknown backend " + spec.Backend)
 	}
